@@ -106,6 +106,13 @@ func (V *Verifier) load(patterns []string) error {
 				}
 				fi := &FuncInfo{Key: key, Decl: fd, Pkg: pi, Obj: obj}
 				V.funcs[obj] = fi
+				if key == "init" {
+					// several init functions per package: init, init#2, ... in source order
+					for n := 2; V.funcsByKey[p.Name+"."+key] != nil; n++ {
+						key = fmt.Sprintf("init#%d", n)
+					}
+					fi.Key = key
+				}
 				V.funcsByKey[p.Name+"."+key] = fi
 			}
 		}
@@ -305,6 +312,15 @@ func (V *Verifier) verifyFuncMode(fi *FuncInfo, fct *FuncContract, ceUnroll int)
 		}
 		sort.Strings(gnames)
 		used := V.globalsUsed(fi, 2)
+		for _, n := range contractIdents(fct) {
+			used[n] = true
+		}
+		// specs used by the contract may mention globals too (one level)
+		for _, n := range contractIdents(fct) {
+			if sf := pc.Specs[n]; sf != nil && sf.Body != nil {
+				collectIdents(sf.Body, used)
+			}
+		}
 		for _, g := range gnames {
 			if !used[g] {
 				continue // relevance: invariants of globals this function cannot reach are not assumed
@@ -834,5 +850,46 @@ func (V *Verifier) globalsUsed(fi *FuncInfo, depth int) map[string]bool {
 		})
 	}
 	visit(fi, depth)
+	return out
+}
+
+func collectIdents(n *SNode, out map[string]bool) {
+	if n == nil {
+		return
+	}
+	if n.Op == "id" || n.Op == "call" {
+		out[n.Text] = true
+	}
+	for _, a := range n.Args {
+		collectIdents(a, out)
+	}
+}
+
+// contractIdents lists every identifier / spec name mentioned anywhere in a function contract.
+func contractIdents(fct *FuncContract) []string {
+	m := map[string]bool{}
+	add := func(cs []*Clause) {
+		for _, c := range cs {
+			collectIdents(c.Expr, m)
+			for _, e := range c.List {
+				collectIdents(e, m)
+			}
+		}
+	}
+	add(fct.Requires)
+	add(fct.Ensures)
+	add(fct.PanicsIf)
+	add(fct.Ghosts)
+	for _, l := range fct.Loops {
+		add(l.Invariants)
+	}
+	for _, a := range fct.Anchors {
+		add(a.Clauses)
+	}
+	var out []string
+	for k := range m {
+		out = append(out, k)
+	}
+	sort.Strings(out)
 	return out
 }
